@@ -138,6 +138,7 @@ func run(seed int64, n int, dir string, _ []string) {
 	sigs := []string{"SIGINT", "SIGTERM", "SIGQUIT"}
 	obstacles(o, bin, scratch, mk)
 	vanishing(o, bin, scratch)
+	usageErrors(o, bin, scratch, mk)
 
 	preload := func(p prog, d string) {
 		if strings.HasPrefix(p.kind, "preload-") {
